@@ -278,6 +278,9 @@ def check_C02(rep, fl):
     # "never a value written before the latest clear()": the clear empties every shard and discards everything buffered
     props_life.check_clear_parts(rep, fl)
     props_life.check_cleaner(rep, fl)
+    # ... and clear() returns only after the processor has done all of it (a lookup that starts after clear()
+    # returned must not find an older value)
+    props_life.check_clear(rep, fl)
 
 
 # ----------------------------------------------------------------------------------------
